@@ -5,7 +5,7 @@ CONSTANTS
   Comm <- Comm1
   Amounts = {1, 2}
   Fractions <- FracHalf
-  Steps = {1}
+  Steps = {0, 1}
   Unbond = 0
   InitBal = 4
   MaxOps = 5
